@@ -7,6 +7,7 @@ import (
 	"context"
 	"errors"
 	"sort"
+	"strconv"
 
 	"go.opentelemetry.io/collector/pdata/pcommon"
 
@@ -15,6 +16,7 @@ import (
 	"github.com/tdakkota/docker-logql/internal/logql/logqlengine"
 	"github.com/tdakkota/docker-logql/internal/logstorage"
 	"github.com/tdakkota/docker-logql/internal/otelstorage"
+	"github.com/tdakkota/docker-logql/verifharness/canon"
 	"github.com/tdakkota/docker-logql/verifharness/model"
 )
 
@@ -50,6 +52,35 @@ type Store struct {
 	Calls  []Call
 	Opened int
 	Closed int
+
+	// shared holds one attribute map per distinct label set: like a real backend (dockerlog
+	// hands the same resource attributes to every record of a container), records with equal
+	// labels share their attributes, so an evaluation that writes into them shows on the next
+	// record. pristine is a copy of each map to detect such writes.
+	shared   map[string]pcommon.Map
+	pristine map[string]map[string]string
+}
+
+// Mutated reports a shared attribute map that no longer holds the labels it was built from.
+func (s *Store) Mutated() string {
+	for k, m := range s.shared {
+		want := s.pristine[k]
+		if m.Len() != len(want) {
+			return "label set {" + k + "} now has " + strconv.Itoa(m.Len()) + " attributes"
+		}
+		bad := ""
+		m.Range(func(name string, v pcommon.Value) bool {
+			if w, ok := want[name]; !ok || w != v.AsString() {
+				bad = "label set {" + k + "}: attribute " + name + " is now " + strconv.Quote(v.AsString())
+				return false
+			}
+			return true
+		})
+		if bad != "" {
+			return bad
+		}
+	}
+	return ""
 }
 
 // New creates a store over recs (sorted by time, stable).
@@ -128,15 +159,25 @@ func (s *Store) SelectLogs(_ context.Context, start, end otelstorage.Timestamp, 
 		if !keep {
 			continue
 		}
-		attrs := pcommon.NewMap()
-		for k, v := range r.Labels {
-			attrs.PutStr(k, v)
+		key := canon.LabelKey(r.Labels)
+		attrs, ok := s.shared[key]
+		if !ok {
+			attrs = pcommon.NewMap()
+			cp := map[string]string{}
+			for k, v := range r.Labels {
+				attrs.PutStr(k, v)
+				cp[k] = v
+			}
+			if s.shared == nil {
+				s.shared, s.pristine = map[string]pcommon.Map{}, map[string]map[string]string{}
+			}
+			s.shared[key], s.pristine[key] = attrs, cp
 		}
 		out = append(out, logstorage.Record{
 			Timestamp:         pcommon.Timestamp(r.TS),
 			ObservedTimestamp: pcommon.Timestamp(r.TS),
 			Body:              string(r.Line),
-			Attrs:             otelstorage.Attrs(attrs),
+			ResourceAttrs:     otelstorage.Attrs(attrs),
 		})
 	}
 	s.Opened++
